@@ -21,17 +21,24 @@ RULE = ('a case = a property package of 1-8 user-defined chemicals (custom CAS n
         '100-entry and the 500-entry caches fill and evict, with revisits of evicted and of surviving keys. Compared: the '
         'name table and group compositions after configuration, per-operation value / error class / data after each write, '
         'and the exact final contents and ORDER of chemicals._index_cache and of every MaterialIndexer._index_caches entry. '
+        'History cases (coq/C10/ModelCfg.v): one package, a single- and two multi-phase flow indexers and 1-2 SplitIndexers; 20-60 '
+        'operations (12%: 150-260 with distinct tuple keys so the 100-entry cache evicts) of reads/writes on all of them with '
+        'set_alias / define_group calls IN BETWEEN (new names, and in half of the cases risky ones: redefined groups, phase letters, '
+        'chemical IDs), each followed by revisits of keys looked up before it; split data: scalars, vectors, nested vectors for groups, '
+        'malformed lengths/nesting. Compared there in addition: outcome of every configuration call, SplitIndexer values (nested '
+        'structure exactly) and data after each write, the FINAL name table and compositions. '
         'non-trivial = at least 5 successful reads or writes; distinct = distinct case hash')
 ASSUMPTIONS = [
     'keys are built from str, tuple, list, Ellipsis and int (other unhashable containers such as set/dict/ndarray keys are not modelled)',
     'names avoid the reserved attribute names of CompiledChemicals (tuple, size, IDs, CASs, MW, ...), are ASCII, and phases are among s,l,g,S,L',
     'chemicals of one package have distinct IDs and distinct CAS numbers, and no ID equals the CAS of another chemical (names_single states this as wf_chems)',
-    'the configuration (aliases, groups) is fixed before the lookup history starts; group names are new when defined (see report: redefinition leaves stale cache entries)',
+    'history independence with configuration calls between look-ups is proved for calls that define a NEW name that is not a one-letter (phase-like) name (safe_cop); for other calls (group redefinition, a phase letter or an existing ID as new name) the code keeps stale cache entries: C10_cfg_redefine_refuted / C10_cfg_phase_alias_refuted, finding C10:config-stale-cache; the model reproduces the stale behaviour and the correspondence covers it',
+    'SplitIndexer data are numbers, flat sequences of numbers, or sequences whose elements are numbers or flat sequences (one level of nesting)',
     'group compositions have a non-zero sum; float rounding is not modelled (values compared to 1e-9 relative, structure exactly)',
     'writes through (..., IDs) use SparseArray column assignment (property C09); modelled for scalars and for vectors of exactly the indexed length',
     'data written through the ellipsis has at most as many entries as there are chemicals',
 ]
-TRUSTED = ['model coq/C10/Model.v is hand-written from thermosteam/_chemicals.py, indexer.py, utils/cache.py, _phase.py; tie = correspondence check '
+TRUSTED = ['model coq/C10/Model.v and ModelCfg.v are hand-written from thermosteam/_chemicals.py, indexer.py, utils/cache.py, _phase.py; tie = correspondence check '
            '(values, error classes, data after writes, final cache contents and order)']
 
 _env = {}
@@ -58,7 +65,7 @@ COMPS = [[1, 1], [1, 3], [3, 1], [1, 2], [1, 1, 2], [2, 1, 1], [1, 7], [1], [4],
 POOL = sorted(set(LETTERS + CAS_POOL + NAME_POOL + ALIAS_POOL + GROUP_POOL +
                   ['nope', 'q', 'lq', '', 'G', 'Q', '90-00-9', 's', 'l', 'g', 'S', 'L']))
 NAMEID = {nm: i for i, nm in enumerate(POOL)}
-COQ_HEADER = ('From V Require Import Common.Num C10.Model.\nOpen Scope Q_scope.\nOpen Scope string_scope.\n'
+COQ_HEADER = ('From V Require Import Common.Num C10.Model C10.ModelCfg C10.ModelEll.\nOpen Scope Q_scope.\nOpen Scope string_scope.\n'
               + ''.join(f'Definition n{i} : string := "{nm}".\nDefinition k{i} : key := KStr n{i}.\n' for i, nm in enumerate(POOL))
               + ''.join(f'Definition p{i} := Pos {i}.\n' for i in range(9))
               + 'Definition kt := KTup.\nDefinition kl := KList.\nDefinition g_ := Grp.\n'
@@ -540,6 +547,9 @@ def gen_cases(rng, tier):
         nsmall, nbig = 3000, 120
     small = [small_case(rng) for _ in range(nsmall)]
     big = [big_case(rng, rng.choice([700, 900, 1200, 1600])) for _ in range(nbig)]
+    nhist = 90 if tier == 'quick' else 900
+    hist = [hist_case(rng) for _ in range(nhist)]
+    small = [c for pair in itertools.zip_longest(small, hist) for c in pair if c is not None]
     # spread the big cases over the shards
     return spread(small, big, len(CORPUS))
 
@@ -792,6 +802,7 @@ def canon_mval(key, v):
     return [mi, kind, bool(sap)]
 
 def run_impl(case):
+    if case.get('hist'): return run_impl_hist(case)
     chems, cerr = build_package(case)
     out = {'compile_err': cerr}
     if chems is None:
@@ -912,6 +923,7 @@ def others_arg(case):
     return clist(['(%s, %s)' % case_args(spec, None) for spec in case.get('pkgs', [])])
 
 def coq_case(case, out):
+    if case.get('hist'): return coq_case_hist(case, out)
     chems, cops = case_args(case, out)
     if out.get('compile_err'):
         return f'(mcase_eqb {VARIANT} {chems} {cops} (Some {out["compile_err"]}) [] [] [] [] [] [] [] [] [] [] [] [])'
@@ -929,6 +941,7 @@ def coq_case(case, out):
             f'{others_arg(case)} {oerrs} {ixs} {ops} {obs} {cc} {mc})')
 
 def coq_show(case, out):
+    if case.get('hist'): return coq_show_hist(case, out)
     chems, cops = case_args(case, out)
     ixs = clist([cixr(x) for x in case['ixs']])
     ops = clist([cop_term(o) for o in case['ops'][:80]])
@@ -938,10 +951,11 @@ def coq_show(case, out):
 
 def nontrivial(case, out):
     obs = out.get('obs', [])
-    return sum(1 for o in obs if 'v' in o or 'ph' in o or ('w' in o and o['w'] is None)) >= 5
+    return sum(1 for o in obs if 'v' in o or 'ph' in o or 'sv' in o or ('w' in o and o['w'] is None) or ('sw' in o and o['sw'] is None)) >= 5
 
 def classify(case, out):
     ks = ['size:%d' % len(case['chems']), 'big' if case.get('big') else 'small']
+    if case.get('hist'): return ks + classify_hist(case, out)
     if out.get('compile_err'): ks.append('compile:' + out['compile_err'])
     for c, e in zip(case['cops'], out.get('cop_errs', [])):
         ks.append(f'cfg:{c[0]}:{e or "ok"}')
@@ -1142,6 +1156,7 @@ def probe_case(case, index, comps):
 def oracle(case):
     """name-keyed access vs positional access on the dense data, along the whole history, then the
     systematic probe writes of probe_case on the same property package"""
+    if case.get('hist'): return oracle_hist(case)
     msg = oracle_core(case)
     if msg or case.get('probe'): return msg
     ext = probe_config(case)
@@ -1442,4 +1457,446 @@ def oracle_core(case):
 def finding_key(case, msg):
     return 'C10:' + msg.split(':')[0]
 
-WITNESSES = []
+
+# ====================================================================== histories with configuration calls in between,
+# and SplitIndexer (coq/C10/ModelCfg.v).  case['hist'] = True; case['sps'] = data of the SplitIndexers;
+# extra operations: ['cfg', cop]  ['sget', i, key]  ['sset', i, key, ['n', x] | ['items', [x | [x, ...], ...]]]
+NEW_ALIASES = ['ay', 'bee', 'cee', 'dee', 'z9', 'nm1', 'nm2', 'Water']
+SPLITS = [F(0), F(1), F(1, 2), F(1, 4), F(3, 4), F(1, 8), F(1, 1024)]
+
+def gen_cfg_op(rng, ids, known, groups, risky):
+    """a configuration call made in the middle of the history.  risky: may redefine an existing group, take a chemical's
+    or a phase letter's name (the stale-cache situations); otherwise the name is usually new"""
+    if rng.random() < 0.5:
+        src = rng.choice(known)
+        al = rng.choice(NEW_ALIASES + (['l', 'g', 's', 'L'] + ids if risky else []))
+        known.append(al)
+        return ['alias', src, al]
+    name = rng.choice(GROUP_POOL[:3] + (groups + ['l', 's'] + ids[:1] if risky else ['G3', 'G4', 'Gy']))
+    k = rng.randint(1, min(3, len(ids)))
+    members = rng.sample(ids, k)
+    comp = None
+    if rng.random() < 0.6:
+        cands = [c for c in COMPS if len(c) == k]
+        if cands: comp = [float(x) for x in rng.choice(cands)]
+    groups.append(name)
+    return ['group', name, members, comp, rng.random() < 0.2]
+
+def gen_sdata(rng, key, glen, malformed, n=8):
+    r = rng.random()
+    if r < 0.35: return ['n', float(rng.choice(SPLITS))]
+    if key[0] in 'tl': elems = [glen.get(e[1], 0) if e[0] == 's' else 0 for e in key[1]]
+    elif key[0] == 's': elems = [0] * glen.get(key[1], 1)
+    else: elems = [0] * n
+    items = []
+    for g in elems:
+        if g and rng.random() < 0.5:
+            items.append([float(rng.choice(SPLITS)) for _ in range(max(0, g + (rng.choice([-1, 0, 1]) if malformed else 0)))])
+        else:
+            items.append(float(rng.choice(SPLITS)))
+    if malformed:
+        m = rng.randrange(4)
+        if m == 0 and items: items = items[:-1]
+        elif m == 1: items = items + [0.5]
+        elif m == 2 and items: items[rng.randrange(len(items))] = [0.25, 0.5]
+        elif m == 3 and items: items[0] = []
+    if key[0] == 'e': items = items[:n]       # longer data through the ellipsis put keys beyond the size into the dict
+    return ['items', items]
+
+def gen_ell_data(rng, ck, glen, nph, groups, dt, n=8):
+    """data for indexer[..., IDs] = data (SparseArray column assignment): scalars, vectors with one entry per phase, per
+    listed chemical, of length 1 (stripped to a scalar), too short / too long, and 2-d data with one row per phase"""
+    w = key_width(ck, glen) or 1
+    if ck == KE: w = n; nphv = min(nph, n)       # (..., ...): longer rows put keys beyond the size into the dicts
+    else: nphv = nph
+    f = rng.random()
+    val = lambda: float(rng.choice(VALS))
+    if f < 0.25: return ['n', val()]
+    if f < 0.6:
+        m = rng.choice([nphv, w, 1, nphv, w, max(0, w - 1), w + 1, nphv + 1, 0])
+        if ck == KE: m = min(m, n)
+        return ['v', [val() for _ in range(m)]]
+    single_group = ck[0] == 's' and ck[1] in groups
+    if f < 0.9 and not single_group:          # (2-d data) * composition is not modelled
+        nr = rng.choice([nph, nph, nph, 1, nph + 1, max(0, nph - 1)])
+        ncol = rng.choice([w, w, w, 1, w + 1])
+        if ck == KE: ncol = min(ncol, n)
+        return ['m', [[val() for _ in range(ncol)] for _ in range(nr)]]
+    return dt if dt[0] in 'nv' else ['n', val()]
+
+def hist_case(rng, nops=None):
+    risky = rng.random() < 0.5
+    malformed = rng.random() < 0.25
+    chems = gen_package(rng, 2, 8, tidy=True)
+    cops = gen_cops(rng, chems, rng.randint(0, 3), tidy=True)
+    ids = [c['ID'] for c in chems]
+    n = len(chems)
+    known = ids + [c['CAS'] for c in chems] + [c[2] for c in cops if c[0] == 'alias']
+    groups = [c[1] for c in cops if c[0] == 'group']
+    glen = {c[1]: len(c[2]) for c in cops if c[0] == 'group'}
+    phs = rng.choice(PHASE_SETS[:5])
+    ixs = [{'kind': 'c', 'stream': False, 'data': [float(rng.choice(VALS)) for _ in range(n)]},
+           {'kind': 'm', 'stream': rng.random() < 0.3, 'phases': list(phs), 'data': [[float(rng.choice(VALS)) for _ in range(n)] for _ in phs]},
+           {'kind': 'm', 'stream': False, 'phases': list(phs), 'data': [[float(rng.choice(VALS)) for _ in range(n)] for _ in phs]}]
+    sps = [[float(rng.choice(SPLITS)) for _ in range(n)] for _ in range(rng.randint(1, 2))]
+    many = nops is None and rng.random() < 0.12
+    if nops is None: nops = rng.randint(150, 260) if many else rng.randint(20, 60)
+    ops = []; seen = []
+    later = ['G3', 'Gy', 'ay', 'z9', 'l', 's']          # names that may only come to exist later: looked up before and after
+    cur = sorted(set(phs))
+    while len(ops) < nops:
+        r = rng.random()
+        names = known + (later if rng.random() < 0.3 else [])
+        if r < (0.04 if many else 0.12):
+            op = gen_cfg_op(rng, ids, known, groups, risky)
+            if op[0] == 'group': glen[op[1]] = len(op[2])
+            ops.append(['cfg', op])
+            # right after a configuration call: revisit keys looked up before it
+            for i, key in rng.sample(seen, min(len(seen), 3)):
+                ops.append([('sget' if i < 0 else 'get'), abs(i) - 1 if i < 0 else i, key])
+            continue
+        if r < 0.3 and seen:
+            i, key = rng.choice(seen[-40:])
+            ops.append([('sget' if i < 0 else 'get'), abs(i) - 1 if i < 0 else i, key])
+            continue
+        if r < 0.5:
+            j = rng.randrange(len(sps))
+            if many:
+                key = kT([kS(x) for x in gen_names(rng, names, groups, rng.choice([2, 3, 4, 5]), allow_groups=rng.random() < 0.4, dup=0.05)])
+            else:
+                key = gen_chem_key(rng, names, groups, malformed)
+            seen.append((-(j + 1), key))
+            if rng.random() < 0.45:
+                ops.append(['sset', j, key, gen_sdata(rng, key, glen, malformed, n)])
+            else:
+                ops.append(['sget', j, key])
+            continue
+        i = rng.randrange(len(ixs))
+        x = ixs[i]
+        if many:
+            ck = kT([kS(x_) for x_ in gen_names(rng, names, groups, rng.choice([2, 3, 4, 5]), allow_groups=rng.random() < 0.3, dup=0.05)])
+            key = ck if x['kind'] == 'c' else kT([kS(rng.choice(cur)), ck])
+        else:
+            key = gen_chem_key(rng, names, groups, malformed) if x['kind'] == 'c' else gen_mat_key(rng, cur, names, groups, malformed)
+        if r < 0.62 and x['kind'] == 'm' and rng.random() < 0.35:
+            key = kT([KE, key if many and key[0] == 't' and key[1][0][0] != 's' else gen_chem_key(rng, names, groups, malformed)])
+            if many: key = kT([KE, ck])
+        seen.append((i, key))
+        if r < 0.62:
+            ck = key if x['kind'] == 'c' else (key[1][1] if key[0] in 'tl' and len(key[1]) == 2 else KE)
+            ellp = x['kind'] == 'm' and key[0] in 'tl' and len(key[1]) == 2 and key[1][0] == KE
+            w = key_width(ck, glen)
+            dt = gen_data(rng, n if w is None else w, malformed, cap=n if w is None else None)
+            if ellp:
+                dt = gen_ell_data(rng, ck, glen, len(cur), groups, dt, n)
+            ops.append(['set', i, key, dt])
+        elif r < 0.66:
+            ops.append(['overlap', rng.sample([c['CAS'] for c in chems], rng.randint(1, min(n, 3)))])
+        else:
+            ops.append(['getm' if rng.random() < 0.15 else 'get', i, key])
+    return {'hist': True, 'chems': chems, 'cops': cops, 'ixs': ixs, 'sps': sps, 'ops': ops}
+
+def corpus_cfg_redefine():
+    """a group is read, REDEFINED, and read again (every indexer kind); also a chemical's ID taken over by a group"""
+    g = kS('G1')
+    ops = [['get', 0, g], ['get', 1, kT([kS('l'), g])], ['sget', 0, g], ['get', 0, kT([kS('D_'), g])],
+           ['cfg', ['group', 'G1', ['C_', 'D_'], [1.0, 3.0], False]],
+           ['get', 0, g], ['get', 1, kT([kS('l'), g])], ['sget', 0, g], ['get', 0, kT([kS('D_'), g])], ['get', 0, kT([g, kS('A_')])],
+           ['set', 0, g, ['n', 8.0]], ['sset', 0, g, ['n', 0.5]], ['get', 0, KE], ['sget', 0, KE],
+           ['get', 0, kS('A_')], ['cfg', ['group', 'A_', ['C_', 'D_'], None, False]], ['get', 0, kS('A_')], ['get', 0, kT([kS('A_'), kS('B_')])]]
+    return {'hist': True, 'chems': _chems4(), 'cops': [['group', 'G1', ['A_', 'B_'], None, False]], 'ops': ops,
+            'ixs': [{'kind': 'c', 'stream': False, 'data': [1.0, 2.0, 4.0, 8.0]},
+                    {'kind': 'm', 'stream': False, 'phases': ['g', 'l'], 'data': [[1.0, 2.0, 4.0, 8.0], [16.0, 32.0, 64.0, 128.0]]}],
+            'sps': [[0.125, 0.25, 0.5, 0.75]]}
+
+def corpus_cfg_phase_alias():
+    """a phase letter is used as a key, then becomes the alias of a chemical"""
+    ops = [['get', 0, kS('l')], ['get', 0, kT([kS('l'), kS('B_')])], ['cfg', ['alias', 'A_', 'l']],
+           ['get', 0, kS('l')], ['get', 0, kT([kS('l'), kS('B_')])], ['get', 0, kT([kS('l'), kS('C_')])], ['get', 1, kS('l')]]
+    return {'hist': True, 'chems': _chems4(), 'cops': [], 'ops': ops,
+            'ixs': [{'kind': 'm', 'stream': False, 'phases': ['g', 'l'], 'data': [[1.0, 2.0, 4.0, 8.0], [16.0, 32.0, 64.0, 128.0]]},
+                    {'kind': 'c', 'stream': False, 'data': [1.0, 2.0, 4.0, 8.0]}],
+            'sps': []}
+
+def corpus_cfg_safe():
+    """new names defined between look-ups (the situation the theorem covers), unknown-name errors before, hits after"""
+    ops = [['get', 0, kS('G3')], ['get', 0, kS('ay')], ['sget', 0, kT([kS('A_'), kS('G3')])], ['get', 1, kT([kS('l'), kS('ay')])],
+           ['cfg', ['group', 'G3', ['B_', 'D_'], [1.0, 3.0], False]], ['cfg', ['alias', 'C_', 'ay']],
+           ['get', 0, kS('G3')], ['get', 0, kS('ay')], ['sget', 0, kT([kS('A_'), kS('G3')])], ['get', 1, kT([kS('l'), kS('ay')])],
+           ['sset', 0, kT([kS('A_'), kS('G3')]), ['items', [0.5, [0.25, 0.125]]]], ['sget', 0, KE], ['sset', 0, kS('G3'), ['n', 0.75]],
+           ['sget', 0, kS('G3')], ['sset', 0, kT([kS('G3'), kS('ay')]), ['items', [0.5, 0.25]]], ['sget', 0, kT([kS('G3'), kS('ay')])],
+           ['set', 1, kT([kS('g'), kS('G3')]), ['n', 8.0]], ['get', 1, kS('g')], ['sset', 0, KE, ['items', [0.5, 0.25]]], ['sget', 0, KE],
+           ['sset', 0, kT([kS('A_'), kS('B_')]), ['items', [[0.5], 0.25]]], ['sset', 0, kT([kS('A_'), kS('G3')]), ['items', [0.5]]],
+           ['sset', 0, kT([kS('A_'), kS('G3')]), ['items', [[0.5, 0.25], 0.25]]], ['sset', 0, kS('A_'), ['items', [0.5]]]]
+    return {'hist': True, 'chems': _chems4(), 'cops': [], 'ops': ops,
+            'ixs': [{'kind': 'c', 'stream': False, 'data': [1.0, 2.0, 4.0, 8.0]},
+                    {'kind': 'm', 'stream': True, 'phases': ['g', 'l'], 'data': [[1.0, 2.0, 4.0, 8.0], [16.0, 32.0, 64.0, 128.0]]}],
+            'sps': [[0.125, 0.25, 0.5, 0.75]]}
+
+def corpus_ell_full():
+    """indexer[..., IDs] = data with every data form (SparseArray column assignment strips leading length-1 dimensions):
+    per-phase vectors, length-1 vectors, 2-d data, too short / too long, groups and mixed tuples; restored in between"""
+    base = [[1.0, 2.0, 4.0, 8.0], [16.0, 32.0, 64.0, 128.0]]
+    E = KE
+    ws = [(kS('B_'), ['v', [5.0, 7.0]]), (kT([kS('cee'), kS('A_')]), ['v', [5.0]]), (kT([kS('cee'), kS('A_')]), ['m', [[5.0, 6.0], [7.0, 9.0]]]),
+          (kS('G1'), ['v', [4.0, 8.0]]), (kS('B_'), ['v', [5.0]]), (kS('B_'), ['v', [5.0, 7.0, 9.0]]), (kS('B_'), ['v', []]),
+          (kS('B_'), ['m', [[5.0], [7.0]]]), (kS('B_'), ['m', [[5.0, 6.0], [7.0, 9.0]]]), (kS('B_'), ['m', [[5.0, 7.0]]]),
+          (kT([kS('B_'), kS('D_')]), ['v', [5.0, 7.0, 9.0]]), (kT([kS('B_'), kS('D_')]), ['v', []]), (kT([kS('B_'), kS('D_')]), ['m', [[5.0, 6.0]]]),
+          (kT([kS('B_'), kS('D_')]), ['m', [[5.0, 6.0], [7.0], [1.0, 1.0]]]), (kT([kS('B_'), kS('D_')]), ['m', [[[5.0]]]] if False else ['m', [[5.0]]]),
+          (kS('G1'), ['v', [4.0]]), (kS('G1'), ['v', [4.0, 8.0, 1.0]]), (kS('G1'), ['n', 0.0]), (kS('G2'), ['n', 6.0]), (kS('G2'), ['v', [6.0, 3.0]]),
+          (kT([kS('G1'), kS('D_')]), ['n', 3.0]), (kT([kS('G1'), kS('D_')]), ['v', [8.0, 3.0]]), (kT([kS('G1'), kS('D_')]), ['v', [8.0]]),
+          (kT([kS('D_'), kS('G1')]), ['v', [8.0]]), (kT([kS('G1'), kS('D_')]), ['m', [[8.0, 4.0], [3.0, 5.0]]]), (kT([kS('D_'), kS('G2')]), ['m', [[3.0, 5.0], [6.0]]]),
+          (kT([kS('D_'), kS('G1')]), ['m', [[3.0, 5.0], [6.0, 1.0, 2.0]]]), (kT([]), ['v', [1.0, 2.0]]), (kT([]), ['n', 2.0]), (E, ['m', [[1.0, 2.0, 3.0, 4.0]]]),
+          (E, ['m', [[1.0, 2.0, 3.0, 4.0], [5.0, 6.0, 7.0, 8.0]]]), (E, ['v', [1.0, 2.0]])]
+    ops = [['get', 0, kT([E, kS('B_')])], ['cfg', ['alias', 'C_', 'cee']]]
+    for k, d in ws:
+        ops += [['set', 0, kT([E, k]), d], ['set', 0, kT([E, E]), ['m', base]]]
+    return {'hist': True, 'chems': _chems4(), 'cops': [['group', 'G1', ['A_', 'B_'], None, False], ['group', 'G2', ['C_'], None, False]], 'ops': ops,
+            'ixs': [{'kind': 'm', 'stream': False, 'phases': ['g', 'l'], 'data': base}], 'sps': []}
+
+CORPUS += [corpus_cfg_redefine(), corpus_cfg_phase_alias(), corpus_cfg_safe(), corpus_ell_full()]
+
+def build_splits(case, chems):
+    ix = env()['ix']
+    out = []
+    for data in case.get('sps', []):
+        o = ix.SplitIndexer.blank(chems)
+        for i, v in enumerate(data):
+            if v: o.data.dct[i] = float(v)
+        out.append(o)
+    return out
+
+def pysdata(d):
+    return d[1] if d[0] == 'n' else [list(x) if isinstance(x, list) else x for x in d[1]]
+
+def canon_sval(v):
+    from thermosteam.base import SparseVector
+    if isinstance(v, SparseVector): v = v.to_array()
+    if isinstance(v, np.ndarray):
+        if v.dtype == object:
+            items = []
+            for e in v:
+                if isinstance(e, (np.ndarray, list)): items.append([fr_json(frac(x)) for x in e])
+                else: items.append(fr_json(frac(e)))
+            return ['nest', items]
+        a = np.asarray(v, float)
+        if a.ndim == 0: return ['n', fr_json(frac(a))]
+        if a.ndim == 1: return ['v', [fr_json(frac(x)) for x in a]]
+        return ['x', repr(v)]
+    if isinstance(v, (int, float, np.floating, np.integer)): return ['n', fr_json(frac(v))]
+    return ['x', repr(v)]
+
+def hist_step(op, chems, ixs, sps, seen_phases):
+    """one operation of a history on the real objects -> canonical observation"""
+    kind = op[0]
+    if kind == 'cfg':
+        try: apply_cop(chems, op[1]); return {'c': None}
+        except Exception as e: return {'c': err_of(e), 'msg': f'{type(e).__name__}: {e}'[:120]}
+    if kind == 'sget':
+        try: return {'sv': canon_sval(sps[op[1]][pykey(op[2])])}
+        except Exception as e: return {'se': err_of(e), 'msg': f'{type(e).__name__}: {e}'[:120]}
+    if kind == 'sset':
+        o = sps[op[1]]
+        try:
+            o[pykey(op[2])] = pysdata(op[3]); ob = {'sw': None}
+        except Exception as e:
+            ob = {'sw': err_of(e), 'msg': f'{type(e).__name__}: {e}'[:120]}
+        ob['d'] = dense(o, chems.size)[0]
+        return ob
+    return run_ops({'ops': [op]}, [chems], ixs, seen_phases=seen_phases)[0]
+
+def run_impl_hist(case):
+    chems, cerr = build_package(case)
+    assert chems is not None, 'packages of history cases are generated well-formed'
+    out = {'compile_err': None}
+    cerrs = []
+    for c in case['cops']:
+        try: apply_cop(chems, c); cerrs.append(None)
+        except Exception as e: cerrs.append(err_of(e))
+    out['cop_errs'] = cerrs
+    ixs = build_indexers(case, chems)
+    sps = build_splits(case, chems)
+    seen_phases = set((0, tuple(o._phases)) for o, x in zip(ixs, case['ixs']) if x['kind'] == 'm')
+    out['obs'] = [hist_step(op, chems, ixs, sps, seen_phases) for op in case['ops']]
+    out['table'] = sorted([[k, ['p', int(v)] if isinstance(v, (int, np.integer)) else ['g', [int(i) for i in v]]]
+                           for k, v in chems._index.items()])
+    out['absent'] = sorted(set(x for x in NAME_POOL + ALIAS_POOL + GROUP_POOL + LETTERS + CAS_POOL + ['nope'] if x not in chems._index))
+    out['comps'] = sorted([[k, [fr_json(frac(x)) for x in v]] for k, v in chems._group_mol_compositions.items()])
+    out['wcomps'] = sorted([[k, [fr_json(frac(x)) for x in v]] for k, v in chems._group_wt_compositions.items()])
+    out['cc'] = [[key_of_py(k), canon_index(v[0], k), v[1]] for k, v in chems._index_cache.items()]
+    caches = env()['ix'].MaterialIndexer._index_caches
+    out['mc'] = [[list(phs), [[key_of_py(k), canon_mval(k, v)] for k, v in caches.get((phs, chems), {}).items()]]
+                 for _, phs in sorted(seen_phases)]
+    out['sps'] = [dense(o, chems.size)[0] for o in sps]
+    return out
+
+def csitem(x):
+    return f'(SG {cvec(x)})' if isinstance(x, list) else f'(SI {q(F(x))})'
+
+def csdata(d):
+    if d[0] == 'n': return f'(SDNum {q(d[1])})'
+    return '(SDItems %s)' % clist([f'(SG {qlist(x)})' if isinstance(x, list) else f'(SI {q(x)})' for x in d[1]])
+
+def chop_term(op):
+    k = op[0]
+    if k == 'cfg':
+        c = op[1]
+        t = (f'(CAlias {cstr(c[1])} {cstr(c[2])})' if c[0] == 'alias' else
+             f'(CGroup {cstr(c[1])} {clist(c[2], cstr)} {copt(c[3], qlist)} {cbool(c[4])})')
+        return f'(HCfg {t})'
+    if k == 'sget': return f'(HSGet {cnat(op[1])} {ckey(op[2])})'
+    if k == 'sset': return f'(HSSet {cnat(op[1])} {ckey(op[2])} {csdata(op[3])})'
+    if k == 'get': return f'(HOp (OGet {cnat(op[1])} {ckey(op[2])}))'
+    if k == 'set': return f'(HOp (OSet {cnat(op[1])} {ckey(op[2])} {cdata(op[3])}))'
+    return f'(HOp {cop_term0(op)})'
+
+def ceop_term(op):
+    """writes of flow indexers go through the full model of __setitem__ (ModelEll.estep)"""
+    if op[0] == 'set': return f'(ESet {cnat(op[1])} {ckey(op[2])} {cdata(op[3])})'
+    return f'(EOp {chop_term(op)})'
+
+def chobs(ob):
+    if 'c' in ob: return f'(HC {cerr(ob["c"])})'
+    if 'sv' in ob:
+        v = ob['sv']
+        if v[0] == 'n': return f'(HSV (SVNum {q(F(v[1]))}))'
+        if v[0] == 'v': return f'(HSV (SVVec {cvec(v[1])}))'
+        if v[0] == 'nest': return f'(HSV (SVNest {clist([csitem(x) for x in v[1]])}))'
+        raise ValueError(f'unmodelled value {v}')
+    if 'se' in ob: return f'(HSE {ob["se"]})'
+    if 'sw' in ob: return f'(HSW {cerr(ob["sw"])} {cvec(ob["d"])})'
+    return f'(HB {cobs(ob)})'
+
+def coq_case_hist(case, out):
+    chems, cops = case_args(case, out)
+    table = clist([f'({cstr(k)}, {ctarget(t)})' for k, t in out['table']])
+    comps = clist([f'({cstr(k)}, {cvec(v)})' for k, v in out['comps']])
+    wcomps = clist([f'({cstr(k)}, {cvec(v)})' for k, v in out['wcomps']])
+    cc = clist([f'(ec {ckey(k)} {ccindex(i)} {ckind(kd)})' for k, i, kd in out['cc']])
+    mc = clist([f'({clist(ph, cstr)}, {clist([cmentry(k, v) for k, v in ents])})' for ph, ents in out['mc']])
+    return (f'(ecase_eqb {VARIANT} {chems} {cops} {clist(out["cop_errs"], cerr)} {clist([cixr(x) for x in case["ixs"]])} '
+            f'{clist([qlist(d) for d in case["sps"]])} {clist([ceop_term(o) for o in case["ops"]])} {clist([chobs(o) for o in out["obs"]])} '
+            f'{table} {clist(out["absent"], cstr)} {comps} {wcomps} {cc} {mc} {clist([cvec(d) for d in out["sps"]])})')
+
+def coq_show_hist(case, out):
+    chems, cops = case_args(case, out)
+    return (f'(match compile {chems} with Err e => None | Ok c0 => let (c, es) := cbuild c0 {cops} in '
+            f'Some (es, snd (erun {VARIANT} (mkhs c (mkst [] [] {clist([cixr(x) for x in case["ixs"]])}) {clist([qlist(d) for d in case["sps"]])}) '
+            f'{clist([ceop_term(o) for o in case["ops"][:80]])})) end)')
+
+def classify_hist(case, out):
+    ks = ['hist']
+    ncfg = 0
+    for op, ob in zip(case['ops'], out.get('obs', [])):
+        if 'c' in ob: ks.append(f'hist:cfg:{op[1][0]}:{ob["c"] or "ok"}'); ncfg += 1
+        elif 'sv' in ob: ks.append(f'hist:sget:ok:{ob["sv"][0]}')
+        elif 'se' in ob: ks.append(f'hist:sget:{ob["se"]}')
+        elif 'sw' in ob: ks.append(f'hist:sset:{op[3][0]}:{ob["sw"] or "ok"}')
+        elif 'v' in ob: ks.append(f'hist:{op[0]}:ok')
+        elif 'e' in ob: ks.append(f'hist:{op[0]}:{ob["e"]}')
+        elif 'w' in ob: ks.append(f'hist:{op[0]}:{ob["w"] or "ok"}')
+    ks.append('hist:cfg-calls-in-between:%s' % ('0' if ncfg == 0 else ('1-2' if ncfg < 3 else '>=3')))
+    if 'cc' in out: ks.append('hist:chem-cache-full' if len(out['cc']) >= 100 else 'hist:chem-cache-partial')
+    return ks
+
+# ------------------------------------------------------------------ direct oracle for histories: the result of a look-up does not
+# depend on the look-ups made earlier -- every read/write is repeated on a FRESH property package that received the same
+# configuration calls in the same order but no look-up at all, on the same data
+def spec_split_read(index, a, key):
+    """SplitIndexer: the listed entries (a group reads as the vector of its members)"""
+    def one(nm):
+        if not isinstance(nm, str) or nm not in index: return None
+        v = index[nm]
+        return float(a[v]) if isinstance(v, (int, np.integer)) else [float(a[i]) for i in v]
+    if key is ...: return [float(x) for x in a]
+    if isinstance(key, str): return one(key)
+    if isinstance(key, (tuple, list)):
+        r = [one(k) for k in key]
+        return None if any(x is None for x in r) else r
+    return None
+
+def same_outcome(a, b):
+    if a[0] != b[0]: return False
+    if a[0] == 'err': return a[1] == b[1]
+    x, y = a[1], b[1]
+    def flat_(v):
+        if isinstance(v, np.ndarray) and v.dtype == object: return [flat_(e) for e in v]
+        if isinstance(v, (list, tuple)): return [flat_(e) for e in v]
+        if hasattr(v, 'to_array'): v = v.to_array()
+        return np.asarray(v, float).tolist()
+    try:
+        fx, fy = flat_(x), flat_(y)
+    except Exception:
+        return repr(x) == repr(y)
+    def eq(u, w):
+        if isinstance(u, list) != isinstance(w, list): return False
+        if isinstance(u, list): return len(u) == len(w) and all(eq(i, j) for i, j in zip(u, w))
+        return abs(u - w) <= 1e-9 * max(1, abs(u), abs(w))
+    return eq(fx, fy)
+
+def oracle_hist(case):
+    ix = env()['ix']
+    chems, _ = build_package(case)
+    if chems is None: return None
+    for c in case['cops']:
+        try: apply_cop(chems, c)
+        except Exception: pass
+    ixs = build_indexers(case, chems); sps = build_splits(case, chems)
+    done = []                                    # configuration calls made so far
+    def fresh():
+        ch, _ = build_package(case)
+        for c in case['cops'] + done:
+            try: apply_cop(ch, c)
+            except Exception: pass
+        return ch
+    def twin(o, ch):
+        """an indexer of the same kind on the fresh package holding the same data"""
+        if isinstance(o, ix.SplitIndexer):
+            t = ix.SplitIndexer.blank(ch); t.data.dct.update(o.data.dct)
+        elif hasattr(o, '_phases'):
+            t = ix.MolarFlowIndexer.blank(tuple(o._phases), ch)
+            for r, row in zip(t.data.rows, o.data.rows): r.dct.update(row.dct)
+        else:
+            t = ix.ChemicalMolarFlowIndexer.blank('l', ch); t.data.dct.update(o.data.dct)
+        return t
+    def outcome(f):
+        try: return ('ok', f())
+        except Exception as e: return ('err', type(e).__name__, str(e)[:80])
+    for num, op in enumerate(case['ops']):
+        kind = op[0]
+        if kind == 'cfg':
+            try: apply_cop(chems, op[1])
+            except Exception: pass
+            done.append(op[1]); continue
+        if kind in ('get', 'getm', 'sget', 'set', 'sset'):
+            o = (sps if kind[0] == 's' and kind != 'set' else ixs)[op[1]]
+            key = pykey(op[2])
+            t = twin(o, fresh())
+            nm = 'split' if kind in ('sget', 'sset') else ('indexer.by_mass()' if kind == 'getm' else 'indexer')
+            if kind in ('get', 'getm', 'sget'):
+                view = (lambda z: z.by_mass()) if kind == 'getm' else (lambda z: z)
+                a = outcome(lambda: view(o)[key]); b = outcome(lambda: view(t)[key])
+                if not same_outcome(a, b):
+                    return (f'config-stale-cache: op {num}: after {len(done)} configuration call(s) made between look-ups, {nm}[{key!r}] gives {a[1:]!r}; '
+                            f'the same package configured by the same calls but without the earlier look-ups gives {b[1:]!r}')
+                if kind == 'sget' and a[0] == 'ok':
+                    exp = spec_split_read(dict(fresh()._index), np.asarray(o.data.to_array(), float), key)
+                    if exp is not None and not same_outcome(('ok', a[1]), ('ok', exp)):
+                        return f'split-read: op {num}: split[{key!r}] = {a[1]!r} but the listed entries are {exp!r}'
+            else:
+                data = pysdata(op[3]) if kind == 'sset' else pydata(op[3], chems, False)
+                data2 = pysdata(op[3]) if kind == 'sset' else pydata(op[3], t._chemicals, False)
+                def wr_(z, d_):
+                    z[key] = d_
+                a = outcome(lambda: wr_(o, data)); b = outcome(lambda: wr_(t, data2))
+                da = np.asarray(o.data.to_array(), float); db = np.asarray(t.data.to_array(), float)
+                if a[0] != b[0] or (a[0] == 'err' and a[1] != b[1]) or da.shape != db.shape or not close(da, db):
+                    return (f'config-stale-cache: op {num}: after {len(done)} configuration call(s) made between look-ups, {nm}[{key!r}] = {op[3][1]!r} '
+                            f'gives {a[:2]!r} and data {da.tolist()}; without the earlier look-ups {b[:2]!r} and data {db.tolist()}')
+        else:
+            hist_step(op, chems, ixs, sps, set())
+    return None
+
+WITNESSES = [{'key': 'C10:config-stale-cache', 'case': corpus_cfg_redefine()},
+             {'key': 'C10:config-stale-cache', 'case': corpus_cfg_phase_alias()}]
+if os.environ.get('VERIF_C10_NO_WITNESS'): WITNESSES = []      # development aid only: everything else must be silent
